@@ -36,6 +36,36 @@ def obligations(tier):
                     'bounds': 'UDF root directory with %d concrete 4-character names + 3 identifiers with symbolic name lengths in [1,254]' % nf,
                     'functions': ['UDFFileEntry.add_file_ident_desc', 'UDFFileIdentifierDescriptor.length', 'PyCdlib._udf_assign_extents', 'PyCdlib._reshuffle_extents', 'PyCdlib._finish_add'],
                     'samples': [(30, 4, 4), (31, 4, 4)], 'stubs': ['names modelled by their length (Span)']})
+    from vf import skel
+    ucfgs = [skel.cfg_of(3, None, None, True, False), skel.cfg_of(3, 3, '1.09', True, False)] if tier == 'quick' else [c for c in skel.pairwise_cfgs() if c['udf']] + [skel.cfg_of(3, None, None, True, False)]
+    for sk in ('sk1', 'sk2', 'sk3', 'sk7'):
+        for c in ucfgs:
+            params = {'sk': sk, 'cfg': c}
+            b = 'three file lengths in [0, 0x3ffff800]'
+            if sk == 'sk3':
+                # El Torito: boot files are non-empty and their load size is a 16-bit count of 512-byte sectors
+                params.update({'minlen': 1, 'maxlen': 16383 * 2048})
+                b = 'three file lengths in [1, 33552384] (boot images: non-empty; the default load size, the block-rounded length in 512-byte sectors, is a 16-bit field)'
+            if tier == 'quick' and sk != 'sk1':
+                params['fixed'] = [2048, 2049]
+                b = 'l0 in [%d, %d], l1 = 2048, l2 = 2049 (three symbolic lengths cost 6-25 min per obligation: thorough tier)' % (params.get('minlen', 0), params.get('maxlen', 0x3ffff800))
+            obs.append({'name': 'C10.b/udf_reader/%s/%s' % (sk, skel.cfg_name(c)), 'engine': 'chx', 'module': 'vf.props.C10_h', 'func': 'udf_reader',
+                        'params': params, 'cond_timeout': 1500 if tier == 'quick' else 4000, 'path_timeout': 300,
+                        'bounds': 'skeleton %s; config %s; %s' % (sk, skel.cfg_name(c), b),
+                        'functions': ['PyCdlib.write_fp', 'PyCdlib._udf_assign_extents', 'UDFAnchorVolumeStructure.record', 'UDFPartitionVolumeDescriptor.record',
+                                      'UDFLogicalVolumeDescriptor.record', 'UDFLogicalVolumeIntegrityDescriptor.record', 'UDFFileSetDescriptor.record',
+                                      'UDFFileEntry.record', 'UDFFileIdentifierDescriptor.record', 'UDFTag.record'],
+                        'samples': [(1, 2048, 2049), (0, 0, 0)],
+                        'stubs': ['M_struct', 'M_out', 'M_image', 'UDF CRC/checksum constant under the solver (verified for real on the concrete samples and in replays)',
+                                  'the anchor at the (symbolic) last sector is identified with the writer\'s one symbolic-position descriptor write by an equation, not by search']})
+    mt = 4 if tier == 'quick' else 5
+    obs.append({'name': 'C10.d/symlink_rt/len_le%d' % mt, 'engine': 'chx', 'module': 'vf.props.C10_h', 'func': 'symlink_rt', 'params': {'maxt': mt},
+                'cond_timeout': 1500, 'path_timeout': 100,
+                'bounds': 'every normalised Unix-like symlink target of 1..%d characters over the WHOLE code-point range (Latin-1, BMP, astral; lone surrogates and '
+                          'NUL excluded; no empty component except a leading one): decode(symlink_to_bytes(t)) == t with an independent ECMA-167 4/14.16.1 '
+                          'path-component decoder; longer targets are outside the claim' % mt,
+                'functions': ['udf.symlink_to_bytes', 'udf._ostaunicode'], 'samples': [('a/../b',), ('/x',)],
+                'stubs': ['symbolic utf-16-be encoder and non-realising strict-mode encode errors added to CrossHair (vf/h.py install_codecs)']})
     if tier != 'quick':
         obs.append({'name': 'C10.a/crc_ccitt_msg2', 'engine': 'py', 'module': K, 'func': 'crc_ccitt_msg', 'params': {'n': 2}, 'cond_timeout': 3000,
                     'bounds': 'all messages of 2 bytes', 'functions': ['udf.crc_ccitt']})
